@@ -3,6 +3,7 @@ package main
 // C09 — text emission; C10 — commands pass through verbatim; C11 — AutoVar.
 
 import (
+	"go/constant"
 	"fmt"
 	"go/types"
 	"strings"
@@ -22,7 +23,7 @@ func init() {
 	property("C11",
 		"Static conformance of AutoVar handling: (a) an AutoVar operand is recognised as an identifier configured in autovar_commands, parsed with the ordinary command parser, and its result var is the configured name or the argument at the configured position (bounds-checked), taken verbatim; (b) the parsed command is attached as the preamble of exactly the leaf whose operand is that result var (type VAR), and for switch it is placed immediately before the switch statement; (c) the leaf renders its preamble with the ordinary command renderer exactly once, before the comparison, iff present; each leaf owns one chunk and loops re-enter at the condition's entry chunk (C02.e, C01.e). The command is attached exactly when its result var is the operand (C11.b); the shipped command_config.json keys are the JSON names of the decoded structs (C11.d).",
 		[]string{"scheme argument of DESIGN §4 C11"},
-		"C11.a", "C11.b", "C11.c", "C02.e", "C02.i", "C06.c", "C10.e", "C01.e", "C02.d", "C01.h", "C11.d", "C10.g", "C18.m", "C10.f", "C18.n", "C18.d")
+		"C11.a", "C11.b", "C11.c", "C02.e", "C02.i", "C06.c", "C10.e", "C01.e", "C02.d", "C01.h", "C11.d", "C10.g", "C18.m", "C10.f", "C18.n", "C18.d", "C05.a", "C19.e")
 
 	register(&Rule{ID: "C09.a", Doc: "terminator table and append-iff-missing", Floor: 5, Run: c09a})
 	register(&Rule{ID: "C09.b", Doc: "recorded / returned text is terminator-formatted with its own string type", Floor: 6, Run: c09b})
@@ -667,7 +668,34 @@ func c09e(c *Ctx) {
 			okG := len(d.cs) == 1 && len(d.cs[0]) == 1 && regexpMust(`^\+\(0 < \(\*strings\.Builder\)\.Len\(.*\)(@\d+)?\)$`).MatchString(d.cs[0][0])
 			if !okG && len(d.cs) == 1 && len(d.cs[0]) == 1 {
 				// a "not the first piece" flag: a phi that is false on entry and true round the loop
-				okG = regexpMust(`^[-+]phi\(`).MatchString(d.cs[0][0]) && strings.Contains(d.cs[0][0], "first")
+				// (read off the phi itself, not off its name: the entry value and every value that
+				// comes round the loop are constants, and they are opposite)
+				lit := d.cs[0][0]
+				for _, hb := range rs.Blocks {
+					if !isLoopHeader(hb) {
+						continue
+					}
+					for _, in := range hb.Instrs {
+						ph, isPhi := in.(*ssa.Phi)
+						if !isPhi || c.term(rs, ph) != lit[1:] {
+							continue
+						}
+						wantEntry := lit[0] == '-' // `if !first`: first is true on entry, false afterwards
+						good := true
+						for i, e := range ph.Edges {
+							k, isC := e.(*ssa.Const)
+							if !isC || k.Value == nil || k.Value.Kind() != constant.Bool {
+								good = false
+								continue
+							}
+							entryEdge := !hb.Dominates(hb.Preds[i])
+							if constant.BoolVal(k.Value) != (entryEdge == wantEntry) {
+								good = false
+							}
+						}
+						okG = good
+					}
+				}
 			}
 			c.Check(okG, "separator/lexer/between-every-two-pieces", c.W.Pos(w.call.Pos()), "the separator is written exactly when a piece was written before", "readString writes the piece separator under ["+pretty(d.String())+"], expected exactly when the builder is not empty (sb.Len() > 0): adjacent pieces would be glued together or split differently, and emitText makes one directive per separator")
 		}
@@ -1224,7 +1252,7 @@ func c11a(c *Ctx) {
 			switch {
 			case v == cfg+".VarName":
 				okName = true
-			case strings.HasPrefix(v, "(*parser.Parser).parseCommandStatement@0#0.Args[*("+cfg+".VarNameArgPosition)]"):
+			case regexpMust(`![A-Za-z0-9@_]+`).ReplaceAllString(v, "") == "(*parser.Parser).parseCommandStatement@0#0.Args[*("+cfg+".VarNameArgPosition)]":
 				inBounds := containsPrefix(must, "-(builtin:len((*parser.Parser).parseCommandStatement@0#0.Args)-1 < *(") && hasLit(must, "-("+cfg+".VarNameArgPosition == nil)")
 				okArg = inBounds
 				if !inBounds {
